@@ -148,7 +148,20 @@ CLAIMS["C10"] = dict(
          "against the model and evaluates the monitors on the real traces.",
     note=TB, design_ref="DESIGN.md §7 C10")
 
+CLAIMS["C17"] = dict(
+    text="Theorem C17_merge_fair (FcProps/C17.lean): for merge, every N, every position a of an input, all scripts of all "
+         "inputs, all histories (polls, wake-ups, drop) and both waker strategies: at every yield, if every answer input a "
+         "has given so far was an item (vacuously: it was never polled), then a is among the sources of the latest N items "
+         "once N items have been produced - i.e. every window of N consecutive yields contains an item of a. Proof (World-"
+         "aware, merge-specific invariant): an always-item input is armed and live at every boundary; miss(a) + dist(a) <= "
+         "N-1 where miss = number of latest items not from a and dist = (a + N - offset) mod N its distance from the next "
+         "scan start; the offset advances by one per poll; the early !any_ready exit is impossible while a's bit is set "
+         "(ready count >= number of set bits). The check re-proves, rebuilds the harness in the three builds, runs merge "
+         "with always-ready inputs at random positions among pending/ending inputs (profile `fair`), diffs the projection "
+         "against the model and evaluates holds_C17 on the real traces.",
+    note=TB, design_ref="DESIGN.md §7 C17")
+
 PENDING = "theorem not yet proved in this revision; the property is exercised by the shared correspondence runs but not claimed"
 NOT_APPLICABLE = {p: PENDING for p in
                   ["C02", "C03", "C11", "C12", "C13", "C14",
-                   "C15", "C17", "C18"]}
+                   "C15", "C18"]}
